@@ -52,6 +52,10 @@ TOTAL_PREFIX = (
     'arrayvec::arrayvec::ArrayVec::<T, CAP>::push_unchecked', 'nodrop::imp::NoDrop::<T>::new',
     'core::intrinsics::', 'core::mem::', 'core::core_arch::', 'core::array::', 'alloc::fmt::format', 'alloc::str::<impl str>::',
     'core::hint::must_use',
+    # total slice / Vec accessors (return Option / bool / iterators; never panic)
+    'core::slice::<impl [T]>::get', 'core::slice::<impl [T]>::first', 'core::slice::<impl [T]>::last',
+    'core::slice::<impl [T]>::is_empty', 'core::slice::<impl [T]>::contains', 'alloc::vec::Vec::<T, A>::is_empty',
+    'alloc::vec::Vec::<T, A>::as_slice', 'alloc::vec::Vec::<T, A>::as_mut_slice', 'alloc::vec::Vec::<T, A>::with_capacity',
 )
 TOTAL_CONTAINS = (' as core::iter::traits::', ' as core::ops::deref::Deref', ' as core::cmp::', ' as core::clone::Clone>',
                   ' as core::ops::try_trait::', ' as core::convert::', ' as alloc::string::ToString>', ' as core::fmt::',
@@ -71,6 +75,16 @@ def classify_extern(callee):
 
 
 # ------------------------------------------------------------------------------------------------
+def call_len(cont):
+    """`len` of a Vec / slice value, in the form the audit canonicalises to a length"""
+    return ('call', 'alloc::vec::Vec::<T, A>::len', (cont,), (), None)
+
+
+def private_callers_only(f, key):
+    """is `key` called only from inside the crate by name (no trait object / fn pointer use)?  (it is private: yes unless unused)"""
+    return any(t.get('callee') == key for b in f.bodies.values() for _, t in b.calls())
+
+
 class Auditor:
     def __init__(self, ctx, R, config='default'):
         self.ctx = ctx
@@ -691,6 +705,11 @@ class Auditor:
                         env.append((('notin', y[1], tuple(listed)), True))
             elif g['vals'] and 'otherwise' not in g['vals']:
                 env.append((('in', c, tuple(g['vals'])), True))
+                # `match v.get(k) { Some(x) => .. }`: on the Some arm the container has more than k elements
+                if c[0] == 'discr' and c[1][0] == 'call' and c[1][1] in ('core::slice::<impl [T]>::get',) and g['vals'] == [1] and \
+                        len(c[1][2]) == 2 and c[1][2][1][0] == 'int':
+                    cont = c[1][2][0]
+                    env.append((('bin', 'Gt', ('lenof', self.canon(cont)) if False else call_len(cont), c[1][2][1]), True))
             elif g['vals'] == ['otherwise']:
                 env.append((('notin', c, tuple(v for v in g['all'] if v != 'otherwise')), True))
         # asserts that dominate blk are facts too
@@ -932,6 +951,12 @@ def audit(ctx, R, entries, config='default'):
             desc = '%s %s(%s)' % (k, a['kind'], ', '.join(sh(o, 70) for o in a['ops']))
             if why:
                 ctx.ok(R, '%s -- %s' % (desc, why), where(body, a['line']))
+            elif not (aud.f.fns.get(k) or {}).get('pub', True) and '::{closure#' not in k and \
+                    any(isinstance(x, tuple) and x and x[0] == 'param' for o in a['ops'] for x in walk(norm(o))) and \
+                    private_callers_only(aud.f, k):
+                # a private helper indexes with its own parameter (`fn entry_mask(&self, i)`): the bound is the callers' business
+                ctx.inconclusive(R, '%s: %s on a parameter of a private helper: the bound must come from its callers, which are not followed (%s)' % (
+                    k, a['kind'], ', '.join(sh(o, 70) for o in a['ops'])))
             elif '::{closure#' in k and any(isinstance(x, tuple) and x and x[0] == 'param' for o in a['ops'] for x in walk(norm(o))):
                 # the operand is an argument of a closure: its range depends on the adaptor that calls the closure
                 # (`(a..b).map(|i| v[i])`), which this audit does not follow
